@@ -45,7 +45,7 @@ def smooth_case(draw):
     if draw(st.integers(0, 5)) == 0:
         # a huge dynamic range (saturated pixel, cosmic ray): a window mean must depend on its own samples only
         x[draw(st.integers(0, n - 1))] = draw(st.sampled_from([1e16, -1e18, 1e12, 3e17]))
-    return dict(x=x, width=draw(st.integers(1, n)), edge=draw(st.booleans()), dtype=draw(st.sampled_from(['f8', 'f4'])),
+    return dict(x=x, width=draw(st.integers(1, n)), edge=draw(st.booleans()), posinf=draw(st.sampled_from([[], [], [], [0], [-1], [0, -1], [3], [-1, 5]])), dtype=draw(st.sampled_from(['f8', 'f4'])),
                 view=draw(st.sampled_from(['contiguous', 'contiguous', 'every-other', 'column', 'reversed'])))
 
 
@@ -65,6 +65,13 @@ def smooth_body(case):
     elif view == 'reversed':
         x = x[::-1].copy()[::-1]
     w = case['width'] + 1 if case['width'] % 2 == 0 else case['width']
+    infpos = [q % n for q in case.get('posinf', [])]
+    if infpos:
+        # saturated samples (+infinity, one sign only so that no window holds inf - inf): a window that holds one averages to +infinity,
+        # every other window is unaffected
+        x = x.copy()
+        x[infpos] = np.inf
+        note_label('infinite-samples')
     keep = x.copy()
     got = call(smooth, x, case['width'], edge_truncate=case['edge'])
     h = w // 2
@@ -84,7 +91,11 @@ def smooth_body(case):
         # relative to the largest magnitude in the window, plus the spacing of subnormal numbers of the array's type (results in the
         # subnormal range are rounded to that grid: 33.33 -> 33 units of 1.4e-45 was seen for float32)
         tol = (2e-6 if case['dtype'] == 'f4' else 1e-12) * np.maximum(1e-300, wmax) * w + w * float(np.finfo(case['dtype']).smallest_subnormal)
-        dev = np.abs(got.astype('f8') - ref)
+        isinf = np.isinf(ref)
+        check(bool(np.array_equal(np.isposinf(got.astype('f8')), isinf)), 'smooth:infinite-sample-not-carried-through-its-windows-only',
+              lambda: dict(got=got.astype('f8').tolist()[:12], want=ref.tolist()[:12], width=case['width'], edge=case['edge']))
+        dev = np.where(isinf, 0.0, np.abs(np.where(isinf, 0.0, got.astype('f8')) - np.where(isinf, 0.0, ref)))
+        tol = np.where(isinf, 1.0, np.where(np.isfinite(tol), tol, 1.0))
         check(bool(np.all(dev <= tol)), 'smooth:wrong-value', lambda: dict(index=int(dev.argmax()), got=float(got[dev.argmax()]), want=float(ref[dev.argmax()]),
                                                                           width=case['width'], edge=case['edge'], n=n))
         check(np.array_equal(x, keep), 'smooth:input-modified')
